@@ -18,6 +18,19 @@ package shutterevents
 //@   requires bc != nil
 //@   ensures ret0 == nil <==> cfgValid(bc)
 //@
+//@ // C10: a batch config message is converted only if every keyper entry is exactly 20 bytes (anything else is a
+//@ // malformed transaction and must be refused, not padded or cropped); the scalar fields are copied, the flags
+//@ // start false; the keyper list of the result is a new slice.
+//@ func BatchConfigFromMessage
+//@   requires m != nil
+//@   ensures ret1 == nil ==> (forall i :: 0 <= i && i < len(m.Keypers) ==> len(m.Keypers[i]) == 20)
+//@   ensures ret1 == nil ==> (len(ret0.Keypers) == len(m.Keypers) && ret0.Threshold == m.Threshold && ret0.KeyperConfigIndex == m.KeyperConfigIndex && ret0.ActivationBlockNumber == m.ActivationBlockNumber && !ret0.Started && !ret0.ValidatorsUpdated)
+//@   ensures ret1 == nil ==> (forall i, j :: 0 <= i && i < j && j < len(ret0.Keypers) ==> ret0.Keypers[i] != ret0.Keypers[j])
+//@   ensures ret1 == nil ==> (len(ret0.Keypers) == 0 || fresh(ret0.Keypers))
+//@   invariant len(keypers) == 0 || fresh(keypers)
+//@   invariant len(keypers) == rangeindex + 1
+//@   invariant forall j :: 0 <= j && j <= rangeindex ==> len(m.Keypers[j]) == 20
+//@
 //@ // ---- C14: events as shuttermint wrote them ---------------------------------------------------------------
 //@ // positional attribute-name check: what makes every ev.Attributes[k] below an in-bounds index
 //@ func expectAttributes
